@@ -274,6 +274,11 @@ def run_mp_real(task):
             if task.get("delays", True):
                 for w in range(len(solvers)):
                     delays[w] = [rnd.choice([0, 0, 0.001, 0.005, 0.02]) for _ in range(4)]
+            if task.get("slow_worker") and len(solvers) >= 2 and it < task.get("slow_cases", 2):
+                # one worker stays silent for longer than any polling period while the others finish at once: nobody
+                # failed, so the call must still wait for it and return everything
+                delays[rnd.randrange(len(solvers))] = [task["slow_worker"], 0, 0, 0]
+                cnt("cases_with_a_silent_worker")
             mpreal.set_plan(delays=delays)
             ms = mps.MultiprocessingSolver(solvers, log_level="ERROR")
 
@@ -406,7 +411,7 @@ FAULT_MODELS = [
     {"doms": [[0, 3], [0, 1]], "idx": [0, 1], "off": [0, 0], "props": [[[0, 1], "dummy", []]]},
     {"doms": [[0, 3], [0, 2]], "idx": [0, 1, 1], "off": [0, 0, 1], "props": [[[0, 1], "affine_leq", [1, 1, 3]]]},
 ]
-MANNERS = ["sigkill", "exit1", "raise"]
+MANNERS = ["sigkill", "exit1", "exit0", "raise"]
 
 
 def fault_grid(tier):
